@@ -597,6 +597,19 @@ class SymInt(Sym):
   def __rmod__(self, o):
     r = self.__rdivmod__(o); return r if r is NotImplemented else r[1]
 
+  def __rshift__(self, n):
+    if isinstance(n, SymInt): n = n.__index__()
+    if not isinstance(n, int) or n < 0: return NotImplemented
+    return self // (1 << n)
+  def __lshift__(self, n):
+    if isinstance(n, SymInt): n = n.__index__()
+    if not isinstance(n, int) or n < 0: return NotImplemented
+    return self * (1 << n)
+  def __rlshift__(self, o):
+    return o << self.__index__()
+  def __rrshift__(self, o):
+    return o >> self.__index__()
+
   def _cmp(self, o, op):
     p = SymInt.ofint(o)
     if p is None: return Sym._cmp(self.as_real(), o, op)
